@@ -524,8 +524,10 @@ def build_generated(spec):
                     await ctx.edge(doms[op[1]].clk, op[2])
                     obs.append((f"{tag} time", ctx.elapsed_time().femtoseconds))
                 else:
+                    before = ctx.get(S_[op[1]])
                     v = await ctx.changed(S_[op[1]])
                     obs.append((f"{tag} value", v[0]))
+                    obs.append((f"{tag} resumes only after a change", v[0] != before, True))
                     obs.append((f"{tag} time", ctx.elapsed_time().femtoseconds))
         return script
     order = list(range(len(scripts)))
@@ -730,6 +732,42 @@ def build_engine_scenario(name):
         h.add_process(counter)
         h.add_testbench(tb)
         return h, obs, [da.rst, ds.rst], "falling-edge domains (asynchronous and synchronous reset), counter process, tick/sample"
+    if name == "one-shot-changed":
+        # `await ctx.changed(x)` as the FIRST thing a testbench / process awaits: it resumes at the first change, not at time zero
+        m = Module()
+        sig, data, count, echo = Signal(3, name="sig", init=5), Signal(3, name="data"), Signal(3, name="count"), Signal(3, name="echo")
+        m.d.comb += echo.eq(sig)
+        h = Harness(m)
+        h.declare(count, data)
+        v = fresh("v", 3, False)
+
+        async def waiter(ctx):
+            got, = await ctx.changed(sig)
+            obs.append(("waiter resumes at the change", ctx.elapsed_time().femtoseconds, 1000))
+            obs.append(("waiter sees the new value", got, v))
+            obs.append(("echo has settled", ctx.get(echo), v))
+
+        async def writer(ctx):
+            await ctx.delay(period_fs(1000))
+            ctx.set(sig, v)
+            obs.append(("writer wrote", ctx.get(sig), v))
+            await ctx.delay(period_fs(1000))
+            ctx.set(data, 1)
+            await ctx.delay(period_fs(1000))
+            ctx.set(data, 3)
+            await ctx.delay(period_fs(500))
+            obs.append(("process counted the two changes of data", ctx.get(count), 2))
+
+        async def counter(ctx):
+            total = 0
+            while True:
+                await ctx.changed(data)
+                total += 1
+                ctx.set(count, total)
+        h.add_process(counter)
+        h.add_testbench(waiter)
+        h.add_testbench(writer)
+        return h, obs, [sig, data, count], "one-shot changed() as the first wait of a testbench and of a process"
     if name == "three-testbenches":
         # a testbench woken by an earlier testbench's write runs before the testbenches added after it
         m = Module()
@@ -1115,7 +1153,7 @@ def main(tier, seed):
     jobs = []
     for i, spec in enumerate(pair_designs(tier, seed)):
         jobs.append({"id": f"pair-{i:04d}", "what": "pair", "spec": spec})
-    for name in ("two-domains", "counter-process", "two-testbenches", "partial-sets", "three-testbenches", "falling-edge-domains"):
+    for name in ("two-domains", "counter-process", "two-testbenches", "partial-sets", "three-testbenches", "falling-edge-domains", "one-shot-changed"):
         jobs.append({"id": f"engine-{name}", "what": "engine", "scenario": name, "seed": seed, "orders": 12 if tier == "quick" else 120})
     for k in range(10 if tier == "quick" else 200):
         jobs.append({"id": f"engine-gen-{k:04d}", "what": "engine", "scenario": {"gen": seed * 1000 + k}, "seed": seed + k, "orders": 8 if tier == "quick" else 24})
